@@ -1,6 +1,6 @@
 (** C11 - a panic in caller-supplied code leaves a valid array. *)
 From TD Require Import Base.Prelude Spec.Grid Spec.Inv Model.Iter Model.Owned Model.Hist
-  Proofs.HistInv Proofs.InsertRowAny.
+  Proofs.HistInv Proofs.InsertCol Proofs.InsertRowAny.
 
 (** insert_row / push_row with ANY iterator script: any claimed length (every [N], so
     usize::MAX and lengths that overflow the reservation), ending early or late, panicking
@@ -30,6 +30,35 @@ Theorem C11_insert_row_never_ub :
                      Permutation.Permutation (data (o_td r) ++ o_dropped r ++ o_leaked r) (data t ++ items s).
 Proof. exact @insert_row_any. Qed.
 Print Assumptions C11_insert_row_never_ub.
+
+(** the same for insert_col, whose repaired implementation moves old cells apart BEFORE the
+    iterator is consulted: any script - short, long, panicking at any call - leaves an
+    array satisfying the invariant (the empty one on failure), never UB, every element
+    accounted for exactly once *)
+Theorem C11_insert_col_never_ub :
+  forall (A : Type) dbg cap spare (t : toodee A) (index : N) (s : iter_script A),
+  Inv t -> exists r, insert_col dbg cap spare t index s = Ok r /\ Inv (o_td r) /\
+                     Permutation.Permutation (data (o_td r) ++ o_dropped r ++ o_leaked r) (data t ++ items s).
+Proof. exact @insert_col_any. Qed.
+Print Assumptions C11_insert_col_never_ub.
+
+(** ... and exactly which of the two outcomes: past the argument checks the call succeeds
+    with every cell in place iff the iterator keeps its promise ([col_full]); otherwise the
+    caller is left with the empty array, the old cells and the consumed elements leaked *)
+Theorem C11_insert_col_outcomes :
+  forall (A : Type) dbg cap spare (t : toodee A) idx (s : iter_script A) R,
+  Inv t -> idx <= num_cols t -> claimed s = N.of_nat R -> (num_cols t = 0 \/ R = num_rows t) ->
+  (N.of_nat (length (data t)) + N.of_nat R <= cap)%N ->
+  let nc := num_cols t in
+  let cf := fun r => nth_error (rev (items s)) (R - 1 - r) in
+  exists res, insert_col dbg cap spare t (N.of_nat idx) s = Ok res /\
+   ((~ col_full dbg s R /\ exists k, k <= R /\ res = col_failres t s k) \/
+    (col_full dbg s R /\ exists d',
+       res = mkOp (if 0 <? R then mkTD d' R (nc + 1) else mkTD d' 0 0) true (rev_unconsumed s R) [] /\
+       length d' = (nc + 1) * R /\
+       forall r c, r < R -> c <= nc -> nth_error d' (r * (nc + 1) + c) = fvg (data t) cf nc idx r c)).
+Proof. exact @insert_col_gen. Qed.
+Print Assumptions C11_insert_col_outcomes.
 
 (** whole histories with faults at any step - panicking iterators, lying lengths, element
     destructors that panic during removals / clear ([HBomb]) - keep a valid array after
